@@ -890,16 +890,38 @@ def recipes():
 
 
 # ------------------------------------------------------------------ program execution
+def ambient_state():
+    """process-wide settings that are hidden inputs of every later call: floating-point error handling, print options (they decide what
+    np.savetxt / str() write), working directory, environment, default dtype behaviour"""
+    import sys
+    po = np.get_printoptions()
+    return {"np.geterr": dict(np.geterr()), "np.printoptions": {k: repr(v) for k, v in po.items()}, "cwd": os.getcwd(),
+            "environ": hash(frozenset(os.environ.items())), "recursionlimit": sys.getrecursionlimit(),
+            "float_repr": repr(np.float64(0.1) + np.float64(0.2))}
+
+
 def run_step(ctx, S, step, outdir, mon_files=True):
     """execute one step under the purity monitor; returns (ok, canonical result)"""
     objs = {"pool": S.pool, "args": step.get("args", {})}
     lv, frozen = freeze(objs)
     name = step["name"]
+    amb0 = ambient_state()
     try:
         res, files = step["thunk"](outdir)
         err = None
     except Exception as e:  # noqa: BLE001
         res, files, err = None, {}, e
+    amb1 = ambient_state()
+    ctx.mon("ambient_state")["comparisons"] += 1
+    if amb1 != amb0:
+        diff = {k: (amb0[k], amb1[k]) for k in amb0 if amb0[k] != amb1[k]}
+        ctx.violation(f"{name}/ambient_state:{sorted(diff)[0]}", f"{name} changed process-wide state that later calls depend on: {diff}; parameters {step['par']}",
+                      {"step": name, "par": step["par"], "changed": {k: [str(a), str(b)] for k, (a, b) in diff.items()}}, "ambient_state")
+        try:
+            np.seterr(**amb0["np.geterr"])
+            os.chdir(amb0["cwd"])
+        except Exception:  # noqa: BLE001
+            pass
     ch = changed(lv, frozen)
     ctx.mon("purity")["comparisons"] += len(lv) + len(frozen["#scalars"])
     if ch:
